@@ -500,7 +500,30 @@ pub mod filetime {
 
 // ---- std -----------------------------------------------------------------------------------------
 pub mod libc {
+    use super::*;
+
     pub const ESTALE: i32 = 116;
+
+    /// close(2): no effect on the modelled filesystem (descriptors are not modelled); a failure is a counted hard fault.
+    #[verifier::external_body]
+    pub fn close(fd: i32, Tracked(w): Tracked<&mut World>) -> (rc: i32)
+        requires
+            old(w).inv(),
+        ensures
+            final(w).inv(),
+            final(w).same_fs(*old(w)),
+            final(w).kept(*old(w)) && final(w).listed == old(w).listed && final(w).published == old(w).published && final(w).now == old(w).now,
+            final(w).opens == old(w).opens && final(w).steps == old(w).steps + 1,
+            final(w).hard_faults == old(w).hard_faults + if rc < 0 { 1nat } else { 0nat },
+    {
+        unimplemented!()
+    }
+}
+
+/// Stand-in for `std::io::Error::last_os_error()` (T2).
+#[verifier::external_body]
+pub fn io_last_os_error() -> ::std::io::Error {
+    ::std::io::Error::last_os_error()
 }
 
 pub mod std {
@@ -605,6 +628,44 @@ pub mod std {
                     Some(Ordering::Equal)
                 } else {
                     Some(Ordering::Greater)
+                }
+            }
+        }
+    }
+
+    pub mod os {
+        pub mod unix {
+            pub mod fs {
+                use super::super::super::super::*;
+
+                pub trait PermissionsExt: Sized {
+                    fn from_mode(mode: u32) -> Self;
+                }
+
+                impl PermissionsExt for std::fs::Permissions {
+                    #[verifier::external_body]
+                    fn from_mode(mode: u32) -> (r: Self)
+                        ensures
+                            r.mode() == mode as int,
+                            r.writable() == (mode & 0o222 != 0),
+                    {
+                        unimplemented!()
+                    }
+                }
+            }
+        }
+
+        pub mod fd {
+            use super::super::super::*;
+
+            pub trait IntoRawFd {
+                fn into_raw_fd(self) -> i32;
+            }
+
+            impl IntoRawFd for std::fs::File {
+                #[verifier::external_body]
+                fn into_raw_fd(self) -> i32 {
+                    unimplemented!()
                 }
             }
         }
@@ -730,6 +791,8 @@ pub mod std {
         impl Permissions {
             pub uninterp spec fn writable(&self) -> bool;
 
+            pub uninterp spec fn mode(&self) -> int;
+
             #[verifier::external_body]
             pub fn set_readonly(&mut self, readonly: bool)
                 ensures
@@ -795,6 +858,76 @@ pub mod std {
                             &&& final(w).hard_faults == old(w).hard_faults + if absent_err(e) { 0nat } else { 1nat }
                         },
                     },
+            {
+                unimplemented!()
+            }
+
+            /// fchmod(fd, mode).  PROTOCOL (C03 C19): write permission is never added to an inode that a visible
+            /// name binds (here: the inode must have no link in a cache namespace unless the new mode is read-only).
+            #[verifier::external_body]
+            pub fn set_permissions(&self, perm: Permissions, Tracked(w): Tracked<&mut World>) -> (r: std::io::Result<()>)
+                requires
+                    old(w).inv(),
+                    old(w).inodes.contains_key(self.ino()),
+                    !perm.writable() || forall|q: PathV| #[trigger] old(w).files.contains_key(q) && old(w).files[q] == self.ino() ==> !old(w).in_cache_namespace(q),   // @L C03 C19:write-permission-is-never-added-to-a-visible-file
+                ensures
+                    final(w).stepped(*old(w)),
+                    final(w).inv(),
+                    final(w).now == old(w).now,
+                    final(w).listed == old(w).listed,
+                    final(w).opens == old(w).opens,
+                    final(w).published == old(w).published,
+                    match r {
+                        Ok(()) => {
+                            &&& final(w).hard_faults == old(w).hard_faults
+                            &&& final(w).only_inode_changed(*old(w), self.ino(), Inode { writable: perm.writable(), mode: perm.mode(), ..old(w).inodes[self.ino()] })
+                        },
+                        Err(e) => final(w).same_fs(*old(w)) && final(w).hard_faults == old(w).hard_faults + 1,
+                    },
+            {
+                unimplemented!()
+            }
+
+            /// fsync(fd): on success the contents are on stable storage.
+            #[verifier::external_body]
+            pub fn sync_all(&self, Tracked(w): Tracked<&mut World>) -> (r: std::io::Result<()>)
+                requires
+                    old(w).inv(),
+                    old(w).inodes.contains_key(self.ino()),
+                ensures
+                    final(w).stepped(*old(w)),
+                    final(w).inv(),
+                    final(w).now == old(w).now,
+                    final(w).listed == old(w).listed,
+                    final(w).opens == old(w).opens,
+                    final(w).published == old(w).published,
+                    match r {
+                        Ok(()) => {
+                            &&& final(w).hard_faults == old(w).hard_faults
+                            &&& final(w).only_inode_changed(*old(w), self.ino(), Inode { synced: true, ..old(w).inodes[self.ino()] })
+                        },
+                        Err(e) => final(w).same_fs(*old(w)) && final(w).hard_faults == old(w).hard_faults + 1,
+                    },
+            {
+                unimplemented!()
+            }
+
+            /// `file.sync_all().expect(msg)`: the one documented panic (a failed flush of a caller-supplied path).
+            /// T2: `.sync_all().expect(` is rebound to this stand-in, which returns only if the flush succeeded.
+            #[verifier::external_body]
+            pub fn sync_all_or_panic(&self, msg: &str, Tracked(w): Tracked<&mut World>)
+                requires
+                    old(w).inv(),
+                    old(w).inodes.contains_key(self.ino()),
+                ensures
+                    final(w).stepped(*old(w)),
+                    final(w).inv(),
+                    final(w).now == old(w).now,
+                    final(w).listed == old(w).listed,
+                    final(w).opens == old(w).opens,
+                    final(w).published == old(w).published,
+                    final(w).hard_faults == old(w).hard_faults,
+                    final(w).only_inode_changed(*old(w), self.ino(), Inode { synced: true, ..old(w).inodes[self.ino()] }),
             {
                 unimplemented!()
             }
